@@ -2,7 +2,7 @@
 // commands::serve are run on a store, the store directory is copied (every append is synced before it returns, so the copy is what a
 // crash would leave), and the three serve loops are started again on the copy.
 // Bound: one history - handlers: a plain one, one that was replaced while running, one that was unregistered, one with a dot in its
-// name; generators: one whose spawn succeeded, one spawn without content; commands: one defined twice, one call before the restart.
+// name, one that resumes from the head and reacts to every frame; generators: one whose spawn succeeded, one spawn without content; commands: one defined twice, one call before the restart.
 // Everything lives in one context (same name in two contexts: known finding of C17, its own replay). Timeouts are upper bounds.
 use std::time::Duration;
 use xs::store::{Frame, Store, ZERO_CONTEXT};
@@ -57,6 +57,12 @@ async fn restart_restores_exactly_the_active_handlers() {
     store.append(Frame::builder("gone.unregister", ctx).build()).unwrap();
     wait_for(&store, |fs| fs.iter().any(|x| x.topic == "gone.unregistered"), "gone.unregistered").await;
     let dotted = reg("chat.relay", PONG).await;
+    // a handler that resumes from the head of its context and reacts to EVERY frame it is invoked for (own context, to keep it apart)
+    let ctx2 = store.append(Frame::builder("xs.context", ZERO_CONTEXT).build()).unwrap().id;
+    let echo = store.append(Frame::builder("echoall.register", ctx2).hash(store.cas_insert(r#"{resume_from: "head", run: {|frame| $frame.topic }}"#).await.unwrap()).build()).unwrap();
+    wait_for(&store, |fs| fs.iter().any(|x| x.topic == "echoall.registered"), "echoall.registered").await;
+    store.append(Frame::builder("note", ctx2).build()).unwrap();
+    wait_for(&store, |fs| fs.iter().any(|x| x.topic == "echoall.out" && x.context_id == ctx2), "echoall.out").await;
     // a trigger answered BEFORE the restart must not be answered again after it (handlers resume from the tail by default)
     let old_ping = store.append(Frame::builder("ping", ctx).build()).unwrap();
     wait_for(&store, |fs| fs.iter().filter(|x| meta_str(x, "frame_id") == old_ping.id.to_string()).count() >= 3, "three answers to the old ping").await;
@@ -73,6 +79,13 @@ async fn restart_restores_exactly_the_active_handlers() {
         let nbefore = before.iter().filter(|x| x.topic == format!("{}.registered", name) && meta_str(x, "handler_id") == id).count();
         wait_for(&store2, |fs| fs.iter().filter(|x| x.topic == format!("{}.registered", name) && meta_str(x, "handler_id") == id).count() > nbefore,
                  &format!("C17: {} restored after the restart with its original id", name)).await;
+    }
+    // C14: the restored head-resuming handler replays its context but is never invoked for what it emitted itself before the restart
+    wait_for(&store2, |fs| fs.iter().filter(|x| x.topic == "echoall.registered").count() >= 2, "echoall restored").await;
+    tokio::time::sleep(Duration::from_millis(800)).await;
+    for f in store2.read_sync(None, None, Some(ctx2)).filter(|x| x.topic == "echoall.out") {
+        let seen = String::from_utf8(store2.cas_read(f.hash.as_ref().unwrap()).await.unwrap()).unwrap();
+        assert!(!seen.contains("echoall."), "C14: handler {} was invoked for a frame it emitted itself ({}) after a restart", echo.id, seen);
     }
     let ping = store2.append(Frame::builder("ping", ctx).build()).unwrap();
     wait_for(&store2, |fs| fs.iter().filter(|x| meta_str(x, "frame_id") == ping.id.to_string()).count() >= 3, "three answers to the new ping").await;
